@@ -65,6 +65,9 @@ theorem dec_consumes (ty : BTy) (d : Nat) (old : Val) (bs : Bytes) (v : Val) (r 
   have h2 := dec_pos ty d old bs v r h
   omega
 
+/-- the hypothesis is met: `c3` decodes as the bool `true`, one byte consumed -/
+example : ∃ v r, (BoundedDecoder.dec .bool 0 (.bool false) [0xc3, 0x01]).2 = .ok (v, r) ∧ r.length = 1 := ⟨_, _, rfl, rfl⟩
+
 /-- nothing decodes from the empty input -/
 theorem empty_rejected (ty : BTy) (d : Nat) (old : Val) : ∃ e, (dec ty d old []).2 = .error e := by
   cases h : (dec ty d old []).2 with
@@ -96,6 +99,8 @@ theorem okEv_collection {k : AKind} {b n avail : Nat} (hk : k ≠ .bytes) (h : o
   | slice => simpa [okEv] using h
   | map => simpa [okEv] using h
 
+example : okEv (.alloc .slice (some 4) 3 10) = true ∧ okEv (.alloc .map (some 4) 5 10) = false := by decide
+
 /-- … and a byte-string copy never exceeds the input that is left, nor the declared bound -/
 theorem okEv_bytes {ob : Option Nat} {n avail : Nat} (h : okEv (.alloc .bytes ob n avail) = true) :
     n ≤ avail ∧ ∀ b, ob = some b → n ≤ b := by
@@ -103,6 +108,8 @@ theorem okEv_bytes {ob : Option Nat} {n avail : Nat} (h : okEv (.alloc .bytes ob
   refine ⟨h.1, ?_⟩
   intro b hb; subst hb
   simpa [leB] using h.2
+
+example : okEv (.alloc .bytes (some 8) 5 6) = true ∧ okEv (.alloc .bytes none 7 6) = false := by decide
 
 /-! ## error totality: each malformed class is an explicit error, and the offending read allocates nothing -/
 
